@@ -299,7 +299,8 @@ class Array:
             if name_value is None:
                 raise ValueError(f"Cannot extend from array with typecode {iterable.typecode}.")
             other_dtype = dtype_register.get_dtype(*name_value, scale=None)
-            if self._dtype.name != other_dtype.name or self._dtype.length != other_dtype.length:
+            # The struct codes have fixed sizes, but the item size of an array.array is platform dependent (e.g. 'l').
+            if self._dtype.name != other_dtype.name or self._dtype.length != iterable.itemsize * 8:
                 raise ValueError(
                     f"Cannot extend an Array with format '{self._dtype}' from an array with typecode '{iterable.typecode}'.")
             self.data += iterable.tobytes()
